@@ -3308,7 +3308,11 @@ fn run_tsig_case(sh: &Shared, extra: usize, rq: TReq, verbose: bool) {
         println!("  reference {:?}/{} records travelled {} wanted {}", refo.verdict, refo.reason, travelled.len(), want_records.len());
     }
     if full == 0 {
-        report(sh, "C10|MACHINERY|part-T-no-message-filled-to-the-limit", &|| format!("harness self-check: sizes {sizes:?}"), &cj);
+        // The residual-room sweep of this part presupposes a sender that fills messages up to the
+        // 65535-octet limit. How full a sender packs its messages is its own choice ("any legal
+        // packaging"), so a sender that closes messages earlier makes this part vacuous, which is
+        // recorded in the evidence counters - it is not a violation of the property.
+        lcount("T:VACUOUS:no-message-filled-to-the-limit(sender packs smaller messages; residual-room sweep did not apply)");
     }
     if !out.errors.is_empty() {
         report(sh, &format!("C10|sender-tsig|{rname}|service-error"), &|| format!("response stream carries errors {:?}", out.errors), &cj);
